@@ -73,3 +73,12 @@ CHECKS['C16'] = dict(
          'two consistency cells of each edge row with element 1 of the 3-row directional consistency, and return detect_bursts_cycles of the edited table with the given '
          'thresholds; one-sided consistency definitions checked for both centrings; no chained (lost) store. Not decided: "bursts only grow" as a value statement.',
     note='Trusted: reference in sa/refspec/edges.py; DataFrame.iloc store / copy semantics; C05 definitions.')
+
+CHECKS['C19'] = dict(
+    technique='decision-table extraction by constant-folding the branch structure over an exhaustive abstract grid; must-pass-through (unconditional, first-use) check queries on the call trace; option-chain exhaustiveness by scenario evaluation',
+    text='Exhaustive over the documented grid: every cell (2-D/3-D arrays with extents 1-3, eight axis values, option arguments None/dict/1-D/2-D/3-D with extents 1-4) of '
+         'check_kwargs_shape folds to accept / ValueError exactly as documented, and both group functions call it first and unconditionally; each of the 19 validated '
+         '(function, parameter) pairs has an unconditional check_param_range with the documented bounds before any other use; relational checks on amp_threshes and '
+         'start/stop; direction options; every option chain rejects undocumented values with ValueError and accepts documented ones; dimensionality / fitted-state / override / '
+         'required-key / type / label-count guards; every raise is a ValueError.',
+    note='Trusted: neurodsp check_param_range / check_param_options summaries (source read); exceptions raised inside dependencies (e.g. fs == 0) are out of scope.')
